@@ -21,3 +21,7 @@ if [ ! -f "$bdir/build.ninja" ]; then
     -DCMAKE_C_FLAGS="$CF" >"$bdir.cmake.log" 2>&1 || { cat "$bdir.cmake.log" >&2; exit 2; }
 fi
 ninja -C "$bdir" nng >"$bdir.ninja.log" 2>&1 || { tail -50 "$bdir.ninja.log" >&2; exit 2; }
+# the library's own -D flags, for shims that include internal headers
+grep -m1 "DEFINES = " "$bdir/build.ninja" | sed 's/.*DEFINES = //' > "$bdir/nng_defs.txt.new"
+cmp -s "$bdir/nng_defs.txt.new" "$bdir/nng_defs.txt" 2>/dev/null || mv "$bdir/nng_defs.txt.new" "$bdir/nng_defs.txt"
+rm -f "$bdir/nng_defs.txt.new"
